@@ -14,6 +14,7 @@ import (
 
 	"github.com/bandprotocol/chain/v3/pkg/tss"
 	bandtesting "github.com/bandprotocol/chain/v3/testing"
+	"github.com/bandprotocol/chain/v3/testing/testdata"
 	bandtsstypes "github.com/bandprotocol/chain/v3/x/bandtss/types"
 	feedstypes "github.com/bandprotocol/chain/v3/x/feeds/types"
 	globalfeetypes "github.com/bandprotocol/chain/v3/x/globalfee/types"
@@ -99,7 +100,7 @@ func prepBusy(w *engine.World, ctx sdk.Context, info map[string]any) sdk.Context
 	}
 	tssh.Must(w.Tx(ctx, 0, m2), "create ibc tunnel")
 	// open oracle request
-	tssh.Must(w.Tx(ctx, 0, oracletypes.NewMsgRequestData(1, []byte("cd"), 2, 2, "cid", bandtesting.Coins100000000uband, bandtesting.TestDefaultPrepareGas, bandtesting.TestDefaultExecuteGas, bandtesting.FeePayer.Address, oracletypes.ENCODER_UNSPECIFIED)), "request")
+	tssh.Must(w.Tx(ctx, 0, oracletypes.NewMsgRequestData(1, []byte("cd"), 2, 1, "cid", bandtesting.Coins100000000uband, bandtesting.TestDefaultPrepareGas, bandtesting.TestDefaultExecuteGas, bandtesting.FeePayer.Address, oracletypes.ENCODER_UNSPECIFIED)), "request")
 	req := w.App.OracleKeeper.MustGetRequest(ctx, 1)
 	info["requested_validators"] = req.RequestedValidators
 	// pending signing with the honest shares precomputed
@@ -168,6 +169,7 @@ func Alphabet(info map[string]any) []*twin.TxGen {
 	add("oracle.create-ds.huge-fee", A, oracletypes.NewMsgCreateDataSource("n", "d", []byte("x"), sdk.NewCoins(sdk.NewCoin("uband", sdkmath.NewIntFromUint64(math.MaxUint64).MulRaw(1000))), A.Address, A.Address, A.Address))
 	add("oracle.edit-ds.no-such", A, oracletypes.NewMsgEditDataSource(9999, "n", "d", []byte("x"), uband(1), A.Address, A.Address, A.Address))
 	add("oracle.create-os.garbage", A, oracletypes.NewMsgCreateOracleScript("n", "d", "s", "u", []byte("not wasm"), A.Address, A.Address))
+	add("oracle.edit-os.by-owner", bandtesting.Owner, oracletypes.NewMsgEditOracleScript(1, "n2", "d2", "s2", "u2", testdata.WasmExtra1, bandtesting.Owner.Address, bandtesting.Owner.Address))
 	add("oracle.edit-os.not-owner", B, oracletypes.NewMsgEditOracleScript(1, "n", "d", "s", "u", []byte("not wasm"), B.Address, B.Address))
 	add("oracle.activate.already", valAcc(0), oracletypes.NewMsgActivate(valAcc(0).ValAddress))
 	add("oracle.activate.not-validator", A, oracletypes.NewMsgActivate(sdk.ValAddress(A.Address)))
@@ -268,5 +270,43 @@ func Alphabet(info map[string]any) []*twin.TxGen {
 	add("globalfee.update-params.not-authority", A, &globalfeetypes.MsgUpdateParams{Authority: A.Address.String(), Params: globalfeetypes.DefaultParams()})
 	// ---- multi-message tx whose last message fails ----
 	add("multi.request-signature-then-fail", A, rs(tsstypes.NewTextSignatureOrder([]byte("m2")), uband(1000), A), banktypes.NewMsgSend(A.Address, B.Address, sdk.NewCoins(sdk.NewInt64Coin("nope", 1))))
+	return out
+}
+
+
+// AuthoritySims are governance-authority messages a node may be asked to *simulate* (signatures are not verified in
+// simulation mode, so anybody can); they are executed on a discarded branch and must not influence consensus.
+func AuthoritySims(app interface{}, info map[string]any) []*twin.TxGen {
+	auth := tssh.Authority.String()
+	fp := feedstypes.DefaultParams()
+	fp.Admin = auth
+	fp.CurrentFeedsUpdateInterval = 3
+	fp.MaxCurrentFeeds = 1
+	fp.PowerStepThreshold = 50
+	fp.CooldownTime = 1
+	tp := tunneltypes.DefaultParams()
+	tp.BasePacketFee = uband(999)
+	tp.MinDeposit = uband(1)
+	op := oracletypes.DefaultParams()
+	op.ExpirationBlockCount = 1
+	op.SamplingTryCount = 1
+	tsp := tsstypes.DefaultParams()
+	tsp.SigningPeriod = 1
+	tsp.MaxDESize = 1
+	bp := bandtsstypes.DefaultParams()
+	bp.FeePerSigner = uband(77)
+	bp.RewardPercentage = 99
+	rp := restaketypes.DefaultParams()
+	var out []*twin.TxGen
+	add := func(name string, m sdk.Msg) {
+		ms := []sdk.Msg{m}
+		out = append(out, &twin.TxGen{Name: "sim." + name, Signer: bandtesting.Carol, Msgs: func(map[string]any) []sdk.Msg { return ms }})
+	}
+	add("feeds.params", feedstypes.NewMsgUpdateParams(auth, fp))
+	add("tunnel.params", tunneltypes.NewMsgUpdateParams(auth, tp))
+	add("oracle.params", oracletypes.NewMsgUpdateParams(auth, op))
+	add("tss.params", tsstypes.NewMsgUpdateParams(auth, tsp))
+	add("bandtss.params", bandtsstypes.NewMsgUpdateParams(auth, bp))
+	add("restake.params", restaketypes.NewMsgUpdateParams(auth, rp))
 	return out
 }
